@@ -343,6 +343,11 @@ def run_case(case):
     def build_sync():
         st = S.Stream(src)
         if shape == 'buffer':
+            if case.get('fuzz_seed', 0) % 3 == 0:
+                # the class used directly with its optional external stop event (never set here): everything else must be unchanged
+                import threading
+
+                return iter(S.Buffer(st.map(mapf_for(case)), size, to_stop=threading.Event()))
             return iter(st.map(mapf_for(case)).buffer(size))
         if shape == 'parmap-thread':
             return iter(st.parmap(func_for(case), executor='thread', concurrency=size))
